@@ -31,14 +31,23 @@ type PointCase struct {
 
 // Point draws a curve point (identity included) from the mixture.
 func Point(t *rapid.T, label string) PointCase {
-	strat := Sampled([]string{"kG", "kG", "lift", "small-x", "x>=n", "small-y", "identity", "lambda"}).Draw(t, label+"_pstrat")
+	strat := Sampled([]string{"kG", "kG", "lift", "lift", "small-x", "x>=n", "small-y", "identity", "lambda"}).Draw(t, label+"_pstrat")
 	odd := rapid.Bool().Draw(t, label+"_odd")
 	switch strat {
 	case "kG":
 		k := Int256(t, ref.N, label+"_k")
 		return PointCase{ref.BaseMul(k), "kG"}
 	case "lift":
-		x := nextOnCurveX(Raw256(t, ref.P, label+"_x"))
+		var x0 *big.Int
+		switch Sampled([]string{"raw", "raw", "mod-limbs", "limb-edge"}).Draw(t, label+"_xsrc") {
+		case "mod-limbs": // abscissas that agree with p in some limbs (range checks on x-only keys, r, ...)
+			x0 = ModLimbMix(t, ref.P, label+"_x")
+		case "limb-edge":
+			x0 = LimbEdge(t, ref.P, label+"_x")
+		default:
+			x0 = Raw256(t, ref.P, label+"_x")
+		}
+		x := nextOnCurveX(x0)
 		p, _ := ref.LiftX(x, odd)
 		return PointCase{p, "lift"}
 	case "small-x":
